@@ -84,7 +84,13 @@ def d_package(ann, extra_decls=()):
         ls.append("// @immutable")
     if ann.get("ctors"):
         ls.append("// @constructor NewT2")
-    ls += ["type T2 struct{ X int }", "", "// U is never annotated.", "type U struct {", "\tX  int", "\tXs []int", "\tM  int", "}", ""]
+    ls += ["type T2 struct{ X int }", "", "// hidden is unexported but handed out by Hidden; rec is unexported but named by the exported alias Rec."]
+    if ann.get("imm"):
+        ls.append("// @immutable")
+    ls += ["type hidden struct{ X int }", "", "// Hidden hands out a hidden.", "func Hidden() *hidden { return new(hidden) }", ""]
+    if ann.get("ctors"):
+        ls += ["// rec has a constructor.", "// @constructor newRec"]
+    ls += ["type rec struct{ X int }", "", "// Rec is an exported name of rec.", "type Rec = rec", "", "// U is never annotated.", "type U struct {", "\tX  int", "\tXs []int", "\tM  int", "}", ""]
     ls += list(extra_decls)
     return "\n".join(ls) + "\n"
 
@@ -119,6 +125,7 @@ IMM_STMT = {
     "readX": "_ = %(x)s.X + %(n)d",
     "onU": "u%(n)d.X = %(n)d",
     "onT2": "q%(n)d.X = %(n)d",
+    "onHidden": "%(q)sHidden().X = %(n)d",
     "local": "l%(n)d = %(n)d",
     "recvAssign": "*r = T{X: %(n)d}",
     "recvInc": "*r++",
@@ -136,7 +143,9 @@ def build_imm(sc, sid):
 def imm_container(c, n, pkg, qual, handles):
     """Returns (header lines, pre lines, statement text, post lines, footer lines) of one container."""
     x = "r" if c["via"] == "r" else "p%d" % n     # every receiver is called r
-    stmt = IMM_STMT[c["stmt"]] % {"x": x, "n": n}
+    stmt = IMM_STMT[c["stmt"]] % {"x": x, "n": n, "q": qual}
+    if c["stmt"] == "onHidden":
+        pass
     if c["sp"] == "fnalias":
         # the type is reached through a function-local alias that is called R in every function
         target, var = ("U", "u%d" % n) if c["stmt"] == "onU" else ("T", "p%d" % n)
@@ -149,6 +158,8 @@ def imm_container(c, n, pkg, qual, handles):
         params = "u%d *%sU" % (n, qual)
     if c["stmt"] == "onT2":
         params = "q%d *%sT2" % (n, qual)
+    if c["stmt"] == "onHidden":
+        params = ""
     if c["stmt"] in ("recvInc", "recvDec", "recvAssign") or c["via"] == "r":
         params = ""
     if c["stmt"] == "local":
@@ -164,6 +175,8 @@ def imm_container(c, n, pkg, qual, handles):
             handles.append("var q%d *%sT2" % (n, qual))
         elif c["stmt"] in ("starPlain", "starPlainInc"):
             pre = ["var r *int"] + pre
+        elif c["stmt"] == "onHidden":
+            pass
         elif c["stmt"] != "local":
             handles.append("var p%d %s" % (n, te))
         params = ""
@@ -270,6 +283,9 @@ CTOR_STMT = {
     "lit2": ("_ = %(q)sT2{X: %(n)d}", "var g%(n)d = %(q)sT2{X: %(n)d}"),
     "new2": ("v%(n)d := new(%(q)sT2)", "var g%(n)d = new(%(q)sT2)"),
     "varZero2": ("var v%(n)d %(q)sT2", "var g%(n)d %(q)sT2"),
+    "litRec": ("_ = %(q)sRec{X: %(n)d}", "var g%(n)d = %(q)sRec{X: %(n)d}"),
+    "newRec": ("v%(n)d := new(%(q)sRec)", "var g%(n)d = new(%(q)sRec)"),
+    "varRec": ("var v%(n)d %(q)sRec", "var g%(n)d %(q)sRec"),
 }
 
 
@@ -293,7 +309,7 @@ def ctor_container(c, n, pkg, qual, handles):
         if c["stmt"] == "onU":
             stmt = "_ = R{X: %d}" % n
     post = []
-    if k != "pkgdecl" and c["stmt"] in ("new", "varZero", "varPtr", "new2", "varZero2"):
+    if k != "pkgdecl" and c["stmt"] in ("new", "varZero", "varPtr", "new2", "varZero2", "newRec", "varRec"):
         post = ["_ = v%d" % n]
     if k == "pkgdecl":
         return [], [], stmt, [], []
